@@ -603,3 +603,51 @@ Fixpoint spec_run (s : list Z * list Z) (ops : list (bool * op)) : list Z * list
   | [] => s
   | (sel, o) :: r => spec_run (fst (spec_step s sel o)) r
   end.
+
+(* what a client can observe after every operation: both contents and the returned position *)
+Fixpoint model_trace (tr : traits) (w : world) (ops : list (bool * op)) : list (list Z * list Z * Z) :=
+  match ops with
+  | [] => []
+  | (sel, o) :: r => let '(w', ret) := step tr w sel o in (abs (wa w'), abs (wb w'), ret) :: model_trace tr w' r
+  end.
+Fixpoint spec_trace (s : list Z * list Z) (ops : list (bool * op)) : list (list Z * list Z * Z) :=
+  match ops with
+  | [] => []
+  | (sel, o) :: r => let '(s', ret) := spec_step s sel o in (fst s', snd s', ret) :: spec_trace s' r
+  end.
+Definition contents_of (t : list (list Z * list Z * Z)) : list (list Z * list Z) := map fst t.
+
+(* "every element constructed is destroyed exactly once": no misuse was recorded (no construction over a live
+   element, no double destruction, no use of a dead element), no live element was lost with its storage, no access
+   outside allocated storage, and as many destructor calls as constructions *)
+Definition life_balanced (L : cled) : Prop :=
+  cl_errs L = [] /\ cl_glive L = 0 /\ cl_gmoved L = 0 /\ cl_bad L = 0 /\
+  c_value (cl_cnt L) + c_copy (cl_cnt L) + c_move (cl_cnt L) = c_dtor (cl_cnt L).
+Definition life_balancedb (L : cled) : bool :=
+  match cl_errs L with [] => true | _ => false end && (cl_glive L =? 0) && (cl_gmoved L =? 0) && (cl_bad L =? 0) &&
+  (c_value (cl_cnt L) + c_copy (cl_cnt L) + c_move (cl_cnt L) =? c_dtor (cl_cnt L)).
+
+(* ------------------------------------------------------------------------------------------------ iterators *)
+(* cv::ConcurrentVectorIterator (kIteratorPreferSpeed): (bucket, bucketPtr_ - bucketStart_, bucketEnd_ - bucketStart_);
+   cv::CompactCVecIterator is just the index.  detail/concurrent_vector_impl2.h *)
+Definition fit : Type := Z * Z * Z.
+Definition fit_of_index (shift i : Z) : fit := bsi shift i.                       (* ConVecIterBase(vec, bucketAndSubIndex(i)) *)
+(* "Reconstruct index": oldIndex = ptr - start + (bool)bucket * (end - start) *)
+Definition fit_index (it : fit) : Z := let '(b, s, cap) := it in s + (if b =? 0 then 0 else cap).
+Definition fit_inc (it : fit) : fit :=                                            (* operator++ *)
+  let '(b, s, cap) := it in
+  if s + 1 =? cap then (b + 1, 0, if 1 <? b + 1 then cap * 2 else cap) else (b, s + 1, cap).
+Definition fit_dec (it : fit) : fit :=                                            (* operator-- *)
+  let '(b, s, cap) := it in
+  if s - 1 <? 0 then (if b =? 0 then (b, s - 1, cap) else let len := if 1 <? b then Z.shiftr cap 1 else cap in (b - 1, len - 1, len))
+  else (b, s - 1, cap).
+Definition fit_add (shift : Z) (it : fit) (n : Z) : fit :=                        (* operator+= / operator+ *)
+  let '(b, s, cap) := it in
+  if (0 <=? s + n) && (s + n <? cap) then (b, s + n, cap) else fit_of_index shift (fit_index it + n).
+Definition fit_diff (a b : fit) : Z :=                                            (* operator-(a, b) *)
+  let '(ba, sa, ca) := a in let '(bb, sb, cb) := b in
+  if ba =? bb then sa - sb else (sa + (if ba =? 0 then 0 else ca)) - (sb + (if bb =? 0 then 0 else cb)).
+Definition fit_lt (a b : fit) : bool :=                                           (* operator<: vb_ first, then the pointer *)
+  let '(ba, sa, _) := a in let '(bb, sb, _) := b in (ba <? bb) || ((ba =? bb) && (sa <? sb)).
+Definition fit_eq (a b : fit) : bool :=                                           (* operator==: the pointers (buffers are disjoint) *)
+  let '(ba, sa, _) := a in let '(bb, sb, _) := b in (ba =? bb) && (sa =? sb).
